@@ -37,9 +37,9 @@ func seqReplay(mk func(tier string) *seqProp) func(ctx *core.Ctx, c json.RawMess
 		}
 		p.UseDefaults = c.UseDefaults
 		implSet(p, c.Opt)
-		if c.PkgLimit != 0 && c.Lib == "v5" && !c.UseDefaults {
-			impl.SetV5PackageLimit(c.PkgLimit)
-			defer impl.SetV5PackageLimit(0)
+		if c.Lib == "v5" && !c.UseDefaults {
+			restore := impl.SetV5HostileDefaults(c.Opt)
+			defer restore()
 		}
 		r := &seqRun{p: p, ctx: ctx, doc: d, dtxt: c.Doc, ops: ops, opt: c.Opt}
 		r.ref = r69.Apply(d, ops, c.Opt)
@@ -122,17 +122,17 @@ func registerSeqMulti(id string, mk func(tier string) []*seqProp, quick, thoroug
 func init() {
 	// C01 — RFC 6902 result (v5)
 	registerSeq("C01", func(tier string) *seqProp {
-		p := &seqProp{ID: "C01", Docs: Dq, Opts: optsNeg(defaultOpt), Depth: 2,
+		p := &seqProp{ID: "C01", Docs: Dq, Opts: optsNeg(defaultOpt), Depth: 2, Alpha: []*AlphaCfg{{InteriorNeg: true}, {}},
 			Judge: func(r *seqRun) { judgeResult(r, false) },
 			Rule: "all operation sequences of length <= depth over the alphabet Sigma(D) recomputed from the current reference state " +
 				"(every resolvable pointer + near-misses x 8 patch values x 6 operations), on each curated document, SupportNegativeIndices on/off; " +
 				"a case is one (document, options, sequence); states = distinct (options, reference document) reached"}
 		if tier == "thorough" {
 			p.Depth = 3
-			p.Alpha = []*AlphaCfg{{}, {}, thirdLevel}
+			p.Alpha = []*AlphaCfg{{InteriorNeg: true}, {InteriorNeg: true}, thirdLevel}
 		}
 		return p
-	}, 100*time.Second, 25*time.Minute)
+	}, 150*time.Second, 25*time.Minute)
 }
 
 // thirdLevel is the reduced alphabet used at depth >= 3.
@@ -172,7 +172,7 @@ func init() {
 			p.Alpha = []*AlphaCfg{{}, {}, thirdLevel}
 		}
 		return p
-	}, 100*time.Second, 25*time.Minute)
+	}, 150*time.Second, 25*time.Minute)
 
 	// C08 — failures return nothing and say why
 	registerSeq("C08", func(tier string) *seqProp {
@@ -196,13 +196,14 @@ func init() {
 			p.Alpha = []*AlphaCfg{{}, a}
 		}
 		return p
-	}, 100*time.Second, 25*time.Minute)
+	}, 150*time.Second, 25*time.Minute)
 
 	// C13 — AllowMissingPathOnRemove
 	registerSeq("C13", func(tier string) *seqProp {
 		opts := optsNeg(r69.Options{AllowMissing: true, EscapeHTML: true})
-		a := &AlphaCfg{Values: v3, ReplValues: v1n}
-		p := &seqProp{ID: "C13", Docs: Dq, Opts: opts, Depth: 2, Alpha: []*AlphaCfg{a}, Judge: judgeC13,
+		a := &AlphaCfg{Values: v3, ReplValues: v1n, InteriorNeg: true}
+		a2 := &AlphaCfg{Values: v3, ReplValues: v1n}
+		p := &seqProp{ID: "C13", Docs: Dq, Opts: opts, Depth: 2, Alpha: []*AlphaCfg{a, a2}, Judge: judgeC13,
 			Rule: "option on x negatives on/off x all sequences <= depth (removes of existing / absent-member / out-of-range / absent-ancestor targets mixed with all other operations); " +
 				"each judged against the reference AND differentially on the real code: Apply(on, P) must equal Apply(off, P minus the removes the reference marks skipped) in bytes or in error"}
 		if tier == "thorough" {
@@ -210,7 +211,7 @@ func init() {
 			p.Alpha = []*AlphaCfg{a, a, {Values: v1n, ReplValues: v1n, Kinds: kinds("remove", "move", "add", "test")}}
 		}
 		return p
-	}, 100*time.Second, 25*time.Minute)
+	}, 150*time.Second, 25*time.Minute)
 
 	// C14 — EnsurePathExistsOnAdd
 	registerSeq("C14", func(tier string) *seqProp {
@@ -229,7 +230,7 @@ func init() {
 			p.Alpha = []*AlphaCfg{first, {}}
 		}
 		return p
-	}, 100*time.Second, 25*time.Minute)
+	}, 150*time.Second, 25*time.Minute)
 
 	// C15 — well-formed outputs, escaping, indentation (Apply part)
 	registerSeqPlus("C15", func(ctx *core.Ctx, tier string) {
@@ -241,6 +242,8 @@ func init() {
 			"{\"u\":\"\u2028x\u2029\",\"q\":\"\\\"\\\\\\n\",\"s\":{\"\U0001F600\":\"\\ud83d\\ude00\",\"l\":\"\\ud800\"}}",
 			`{"a":{"b":"<"},"c":["<",{"d":"&"}]}`,
 			`{}`, `[]`, `[{"<":1},"\u001f>"]`,
+			// neighbours (one bit away in some UTF-8 byte) of the characters the escaper special-cases
+			"{\"n\":\"\u2068x\u2069 \u2027\u202a\u2038\u20a8\u2128 \u00a8\",\"\u2069k\":[\"\u2068\"]}",
 			// duplicate member names: no value oracle applies, the output must still be JSON
 			`{"a":1,"a":2,"b":3}`, `{"x":{"a":1,"a":{"a":2},"b":"<"}}`,
 		}
@@ -255,13 +258,13 @@ func init() {
 			p.Alpha = []*AlphaCfg{a, a, {Values: vals[:1], ReplValues: vals[:1], Kinds: kinds("test", "add", "move", "copy")}}
 		}
 		return p
-	}, 100*time.Second, 25*time.Minute)
+	}, 150*time.Second, 25*time.Minute)
 
 	// C18 — legacy Apply
 	registerSeq("C18", func(tier string) *seqProp {
 		docs := []string{Dq[0], Dq[1], Dq[2], Dq[3], Dq[6], Dq[7], Dq[9], Dq[10], Dq[11],
 			`{"n":1.0,"e":1e400,"z":-0,"big":12345678901234567890123,"s":"plain"}`}
-		a := &AlphaCfg{NoRootAdd: true}
+		a := &AlphaCfg{NoRootAdd: true, InteriorNeg: true}
 		p := &seqProp{ID: "C18", Legacy: true, Docs: docs, Opts: optsNeg(r69.Options{EscapeHTML: true}), Depth: 2, Alpha: []*AlphaCfg{a}, Judge: judgeC18,
 			Rule: "legacy package (built as module github.com/evanphx/json-patch from the working tree through an overlay go.mod): the C01 space without add \"\" and copy from \"\"; " +
 				"sequences the reference evaluates successfully must succeed with a structurally equal document (member order ignored, number literals kept); " +
@@ -271,7 +274,7 @@ func init() {
 			p.Alpha = []*AlphaCfg{a, a, {Values: thirdLevel.Values, ReplValues: thirdLevel.ReplValues, NoRootAdd: true}}
 		}
 		return p
-	}, 100*time.Second, 25*time.Minute)
+	}, 150*time.Second, 25*time.Minute)
 }
 
 func init() {
@@ -305,16 +308,12 @@ func init() {
 		legacy := &seqProp{ID: "C12", Legacy: true, Docs: small, Opts: limOpts, Depth: 2,
 			Alpha: []*AlphaCfg{{Values: vals[:1], ReplValues: vals[:1], Kinds: kinds("copy", "add", "remove"), NoRootAdd: true}, {Kinds: kinds("copy"), NoRootAdd: true}}, Judge: judgeC12Fixed,
 			Rule: "legacy package global AccumulatedCopySizeLimit: every limit 0..N x all sequences <= depth on 2 documents, same oracle (sizes with HTML escaping, which the legacy encoder always applies)"}
-		// per-call options take precedence over the package default: with the default set to 1 byte,
-		// explicit options behave exactly as before (limit 0 = disabled, positive limits as given)
-		override := &seqProp{ID: "C12", PkgLimit: 1, Docs: small, Opts: []r69.Options{{Neg: true, EscapeHTML: true}}, Depth: 2, Alpha: []*AlphaCfg{sa, tail}, Judge: judgeC12,
-			Rule: "v5 per-call option while the package default is 1 byte: explicit ApplyOptions take precedence (limit 0 disables the check; positive limits judged as in the first phase)"}
 		if tier == "thorough" {
 			perCall.Depth, defaults.Depth, legacy.Depth = 3, 3, 3
 			perCall.Alpha = []*AlphaCfg{a, tail, tail}
 		}
-		return []*seqProp{perCall, defaults, legacy, override}
-	}, 100*time.Second, 25*time.Minute)
+		return []*seqProp{perCall, defaults, legacy}
+	}, 150*time.Second, 25*time.Minute)
 }
 
 func init() {
@@ -349,7 +348,7 @@ func init() {
 		objs = append(objs, extra...)
 		arrs := parseAll([]string{`[]`, `[{}]`, `[{"a":1}]`, `[{"a":2}]`, `[{"a":1},{"b":null}]`, `[{"a":1},{"b":2}]`, `[{},{}]`, `[{"a":{"b":1}},{"a":[1]}]`, `[{"a":{"b":2}},{"a":[2]}]`})
 		ctx.Rep.Rule = "all ordered pairs (A,B): objects of V3 (thorough: V4, 13^3 objects over a,b,c) (+ numbers beyond float64 precision) -> success, P={} iff A==B, minimality (every mentioned path differs, removed => null, values are B's literals), RFC round trip and library round trip when B has no null member; " +
-			"pairs of arrays of objects; all pairs of other roots of V1 -> error (null roots: DontCare)"
+			"pairs of arrays of objects; all pairs of other roots of V1, and all pairs of array roots of V2 plus arrays of arrays -> error unless both are equal-length arrays of objects (null roots / null elements: DontCare)"
 		objs = append(onlyObjs(famV3()), extra...)
 		if tier == "thorough" {
 			objs = append(onlyObjs(famV4()), extra...)
@@ -358,6 +357,16 @@ func init() {
 		runCreatePairs(ctx, "C03", false, arrs, arrs)
 		v1 := famV1()
 		runCreatePairs(ctx, "C03", false, v1, v1)
+		// rejection clause on array roots: every array of V2 (elements: scalars, null, objects, arrays) and
+		// arrays of arrays that bottom out in objects or in nothing - only equal-length arrays of objects pass
+		var arrRoots []*rj.Value
+		for _, v := range v2 {
+			if v.K == rj.Arr {
+				arrRoots = append(arrRoots, v)
+			}
+		}
+		arrRoots = append(arrRoots, parseAll([]string{`[[]]`, `[[],[]]`, `[[{"a":1}]]`, `[[{"a":2}]]`, `[[[{"a":1}]]]`, `[{"a":1},[{"a":1}]]`, `[{"a":1},[{"a":2}]]`, `[[{}],{}]`, `[{},{},{}]`, `[{"a":[{"b":1}]}]`, `[{"a":[{"b":2}]}]`})...)
+		runCreatePairs(ctx, "C03", false, arrRoots, arrRoots)
 	}, false)
 	registerMerge("C06", func(ctx *core.Ctx, tier string) {
 		ctx.Rep.Rule = "Equal(a,b) vs reference structural equality (numbers by literal; numerically-equal-but-differently-spelled pairs are DontCare) for all ordered pairs of V3 (quick) / V4 (thorough), each value also in reordered, whitespace-padded and \\u-escaped spellings; every JSON string escape (solidus, quote, backslash, b f n r t, uXXXX in both cases, surrogate pairs) in all spellings at the root, in arrays, as member value and as member name; " +
